@@ -345,10 +345,11 @@ impl Drop for StdoutCapture {
 
 /// Puts the process-wide logger into the `None` state whatever an earlier run left behind.
 fn normalise_global() {
-    let (s, _r) = sync_channel::<LogEvent>(1);
-    if let Ok(g) = log::set_global_logger(s) {
-        drop(g);
-    }
+    // Written directly into the (public) state cell rather than through
+    // set_global_logger + guard, so that a broken install path cannot leak one run's
+    // state into the next run of the same worker process.
+    let mut g = servlin::log::internal::lock_global_logger();
+    *g = servlin::log::internal::GlobalLoggerState::None;
 }
 
 fn gen_val() -> Val {
